@@ -120,7 +120,11 @@ fn parse_xref_stream(
     let mut root = None;
     let mut prev = None;
 
-    let mut sp = IndirectP::new(ctxt);
+    // The xref stream object is parsed in a context of its own: walking the
+    // xref chain must not define objects.  If the stream is listed in the
+    // xref entries it is loaded like any other object by parse_objects.
+    let mut xref_ctxt = PDFObjContext::new(50);
+    let mut sp = IndirectP::new(&mut xref_ctxt);
     let _xref_obj_loc = pb.get_cursor();
     let xref_obj = sp.parse(pb);
     if let Err(e) = xref_obj {
